@@ -333,3 +333,174 @@ func TestC15_Snapshots(t *testing.T) {
 		statExtraAdd("C15", "reads_checked", nreads)
 	})
 }
+
+// TestC15_ControllerRelists: the same interval-linearizability oracle through
+// the public API.  The watch never connects, so the controller cache changes
+// only through relists; every relist moves the server to the next
+// "generation" (every object re-labelled gen=g, one rotating key missing).
+// Lists are gated: the harness publishes started=g before it releases list g
+// and finished=g when it has seen the Watch call that follows its
+// application.  Concurrent readers of Controller.Cache() must always see one
+// complete generation from inside their bracket, never a half-applied relist.
+func TestC15_ControllerRelists(t *testing.T) {
+	rapid.Check(t, func(t *rapid.T) {
+		m := rapid.IntRange(2, 8).Draw(t, "objects")
+		if rapid.IntRange(0, 3).Draw(t, "large") == 0 {
+			m = rapid.IntRange(70, 200).Draw(t, "manyObjects")
+		}
+		nreaders := rapid.IntRange(1, 8).Draw(t, "readers")
+		ngen := rapid.IntRange(3, 25).Draw(t, "generations")
+		a := newFakeAPI()
+		a.gated = true
+		a.watchDead = true
+		ctx, cancel := context.WithCancel(context.Background())
+		defer cancel()
+		b := kcache.NewBuilder().Context(ctx).Log(newPlog(false, 1)).Client(a)
+		b.Lister().RefreshPeriod(time.Millisecond)
+		root, err := b.Create()
+		if err != nil {
+			t.Fatalf("create: %v", err)
+		}
+		defer func() { cancel(); go root.Close() }()
+		// generation g: keys 0..m-1 except g%(m+1), all labelled gen=g
+		install := func(g int) {
+			for k := 0; k < m; k++ {
+				name := "k" + strconv.Itoa(k)
+				if k == g%(m+1) {
+					a.del("a", name)
+					continue
+				}
+				a.put("a", name, map[string]string{"gen": strconv.Itoa(g)})
+			}
+		}
+		render := func(objs []metav1.Object) (int, string) {
+			gen := -1
+			keys := map[string]bool{}
+			for _, o := range objs {
+				if o == nil {
+					return -1, "nil element"
+				}
+				g, err := strconv.Atoi(o.GetLabels()["gen"])
+				if err != nil {
+					return -1, "object without generation label: " + objStr(o)
+				}
+				if gen >= 0 && g != gen {
+					return -1, fmt.Sprintf("objects of generations %d and %d in one listing: a half-applied relist", gen, g)
+				}
+				gen = g
+				if keys[o.GetName()] {
+					return -1, "key listed twice: " + o.GetName()
+				}
+				keys[o.GetName()] = true
+			}
+			if gen < 0 {
+				return 0, "" // empty: before the first list
+			}
+			want := m
+			if gen%(m+1) < m {
+				want = m - 1
+			}
+			if len(keys) != want || keys["k"+strconv.Itoa(gen%(m+1))] {
+				return -1, fmt.Sprintf("generation %d listed with %d objects (expected %d, key k%d absent): a half-applied relist", gen, len(keys), want, gen%(m+1))
+			}
+			return gen, ""
+		}
+		var started, finished int64
+		var stop int32
+		var wg sync.WaitGroup
+		errs := make(chan string, nreaders+1)
+		var reads int64
+		for r := 0; r < nreaders; r++ {
+			wg.Add(1)
+			go func(r int) {
+				defer wg.Done()
+				prev := 0
+				for atomic.LoadInt32(&stop) == 0 {
+					lo := int(atomic.LoadInt64(&finished))
+					if lo < prev {
+						lo = prev
+					}
+					list, err := root.Cache().List()
+					hi := int(atomic.LoadInt64(&started))
+					if err != nil {
+						errs <- fmt.Sprintf("reader %d: List failed on a running controller: %v", r, err)
+						return
+					}
+					g, msg := render(list)
+					if msg != "" {
+						errs <- fmt.Sprintf("reader %d: %s", r, msg)
+						return
+					}
+					if g < lo || g > hi {
+						errs <- fmt.Sprintf("reader %d: List() returned generation %d, but only generations %d..%d existed between call and return (its previous read: %d)", r, g, lo, hi, prev)
+						return
+					}
+					prev = g
+					for i := range list {
+						list[i] = nil
+					}
+					atomic.AddInt64(&reads, 1)
+					if r%2 == 0 {
+						goruntime.Gosched()
+					}
+				}
+			}(r)
+		}
+		fail := ""
+		for g := 1; g <= ngen && fail == ""; g++ {
+			install(g)
+			req := a.awaitListWedge()
+			if req == nil {
+				fail = fmt.Sprintf("WEDGE: list for generation %d was never issued", g)
+				break
+			}
+			atomic.StoreInt64(&started, int64(g))
+			snap := req.release(a, false)
+			// applied when the watcher is reset to the list's version (the Watch call fails: watch is dead)
+			deadline := time.Now().Add(wedgeBoundNow())
+			for {
+				seen := false
+				for _, rv := range a.watchRVs() {
+					if rv == strconv.Itoa(snap.rv) {
+						seen = true
+					}
+				}
+				if seen {
+					break
+				}
+				if time.Now().After(deadline) {
+					fail = fmt.Sprintf("WEDGE: list for generation %d released but never applied", g)
+					break
+				}
+				time.Sleep(20 * time.Microsecond)
+			}
+			atomic.StoreInt64(&finished, int64(g))
+			select {
+			case e := <-errs:
+				fail = e
+			default:
+			}
+		}
+		atomic.StoreInt32(&stop, 1)
+		wg.Wait()
+		select {
+		case e := <-errs:
+			if fail == "" {
+				fail = e
+			}
+		default:
+		}
+		if fail != "" {
+			t.Fatalf("C15 violation: %s", fail)
+		}
+		if !closeBounded(root) {
+			t.Fatalf("C15 violation: WEDGE: Close() did not return")
+		}
+		cancel()
+		nreads := atomic.LoadInt64(&reads)
+		statCase("C15", hashString(fmt.Sprintf("controller m=%d r=%d g=%d", m, nreaders, ngen)), nreaders >= 2 && ngen >= 5, func() interface{} {
+			return map[string]interface{}{"mode": "controller relists (public API)", "objects": m, "readers": nreaders, "generations": ngen, "reads_checked": nreads}
+		}, "controller_relists", fmt.Sprintf("large_state=%v", m > 8))
+		statExtraAdd("C15", "reads_checked", nreads)
+	})
+}
